@@ -1051,7 +1051,11 @@ func h1CorrectableStream(n, repliers int) error {
 func TestGvcReplay(t *testing.T) {
 	want := os.Getenv("GVC_H1")
 	run := func(name string) bool { return want == "" || strings.Contains(","+want+",", ","+name+",") }
-	scs := h1Scenarios(3)
+	maxN := 3
+	if os.Getenv("GVC_DEEP") != "" {
+		maxN = 4 // thorough tier
+	}
+	scs := h1Scenarios(maxN)
 	count := 0
 	for _, s := range scs {
 		if run("QuorumCall") {
@@ -1114,5 +1118,5 @@ func TestGvcReplay(t *testing.T) {
 			t.Fatalf("GVC-REPLAY: RPCCall/Unicast violate their specification.\n  %v", err)
 		}
 	}
-	t.Logf("GVC-REPLAY-OK scenarios=%d bound=\"1..3 nodes, all skip sets, all reply/error/silent assignments, all arrival orders, all quorum thresholds\"", count)
+	t.Logf("GVC-REPLAY-OK scenarios=%d bound=\"1..%d nodes, all skip sets, all reply/error/silent assignments, all arrival orders, all quorum thresholds\"", count, maxN)
 }
